@@ -419,6 +419,17 @@ bk!(c20_nd_argmax_2x2, 9, {
     argmax_only::<Array2<f64>, 2, 2, 4>(nd(2, 2, &a), &ai);
 });
 
+// @vp name=c20_na_argmax_1x3 prop=C20 tier=quick t=480 features=backends fns=nalgebra::argmax size=1x3 dom=lattice(-4..4),f64
+bk!(c20_na_argmax_1x3, 9, {
+    let (ai, a) = latarr::<3>(-4, 4);
+    argmax_only::<DMatrix<f64>, 1, 3, 3>(na(1, 3, &a), &ai);
+});
+// @vp name=c20_na_argmax_2x2 prop=C20 tier=quick t=480 features=backends fns=nalgebra::argmax size=2x2 dom=lattice(-4..4),f64
+bk!(c20_na_argmax_2x2, 9, {
+    let (ai, a) = latarr::<4>(-4, 4);
+    argmax_only::<DMatrix<f64>, 2, 2, 4>(na(2, 2, &a), &ai);
+});
+
 // nalgebra matmul (ndarray's goes through inline assembly in `matrixmultiply` and cannot be translated)
 // @vp name=c20_na_matmul_2x3_3x2 prop=C20 tier=quick mem=30 t=480 features=backends fns=nalgebra::matmul size=2x3*3x2 dom=lattice(-3..3),f64
 bk!(c20_na_matmul_2x3_3x2, 9, {
